@@ -58,9 +58,79 @@ theorem flight_budget_conn (p : Path) (i : SendIn) (hnc : i.closePending = false
     simp [builderCfg, connSendCall, flightBudget, hnc]
   exact flight_budget_formula _ pn ops i.cwnd i.bytesInFlight i.probePending hm hd
 
+/-- one `datagrams_to_send` call as the last clause sees it: window room
+    (`cwnd - bytes_in_flight`) when it starts, whether a probe was pending, and the
+    in-flight bytes it put on the wire -/
+structure Call where
+  room : Int
+  probe : Bool
+  sent : Int
+
+/-- the per-call bound established by `flight_budget_conn` -/
+def Call.ok (mds : Nat) (c : Call) : Prop :=
+  c.sent ≤ (if c.probe then max c.room mds else max c.room 0)
+
+/-- in-flight bytes the call put on the wire beyond what the window allowed -/
+def Call.excess (c : Call) : Int := max (c.sent - max c.room 0) 0
+
+/-- the call made use of the probe allowance -/
+def Call.usesProbe (c : Call) : Bool := c.probe && decide (0 < c.excess)
+
+/-- "… and ONE probe datagram per timeout …" — composition over a whole history
+    of calls.  Each call obeys the per-call bound of `flight_budget_conn`
+    (`Call.ok`); then everything ever sent beyond the window is at most one
+    `max_datagram_size` per call that used a pending probe.  Hence, if the calls
+    that use the probe allowance are at most as many as the probe timeouts `T`
+    (hypothesis `hT`: the life cycle of `_probe_pending` in connection.py — set by
+    a timeout, cleared when the probe is written — which this model takes as an
+    input; `checks/c08.py` counts timeouts and beyond-window calls on the real
+    connection itself and does not read the flag), the excess is at most `T`
+    datagrams. -/
+theorem probe_excess_bound (mds : Nat) (cs : List Call) (T : Nat)
+    (hok : ∀ c ∈ cs, c.ok mds) (hT : (cs.filter Call.usesProbe).length ≤ T) :
+    (cs.map Call.excess).sum ≤ (mds : Int) * T := by
+  have key : ∀ cs : List Call, (∀ c ∈ cs, c.ok mds) →
+      (cs.map Call.excess).sum ≤ (mds : Int) * ((cs.filter Call.usesProbe).length : Nat) := by
+    intro cs
+    induction cs with
+    | nil => simp
+    | cons c cs ih =>
+      intro hok
+      have hc : c.ok mds := hok c (by simp)
+      have ih' := ih (fun d hd => hok d (by simp [hd]))
+      simp only [List.map_cons, List.sum_cons, List.filter_cons]
+      unfold Call.ok at hc
+      by_cases hu : c.usesProbe = true
+      · simp only [hu, if_true, List.length_cons]
+        have hp : c.probe = true := by
+          unfold Call.usesProbe at hu; simp at hu; exact hu.1
+        rw [hp] at hc; simp only [if_true] at hc
+        have : c.excess ≤ mds := by unfold Call.excess; omega
+        push_cast; rw [Int.mul_add]; omega
+      · simp only [hu, Bool.false_eq_true, if_false]
+        have : c.excess ≤ 0 := by
+          unfold Call.usesProbe at hu
+          by_cases hp : c.probe = true
+          · simp [hp] at hu; omega
+          · simp at hp; rw [hp] at hc; simp at hc; unfold Call.excess; omega
+        omega
+  have h1 := key cs hok
+  have h2 : (mds : Int) * ((cs.filter Call.usesProbe).length : Nat) ≤ (mds : Int) * T :=
+    Int.mul_le_mul_of_nonneg_left (by exact_mod_cast hT) (by omega)
+  omega
+
+/-- the hypotheses of `probe_excess_bound` are satisfiable with a probe in use -/
+example : (∀ c ∈ [Call.mk 0 true 1200, Call.mk 0 false 0], c.ok 1200) ∧
+    ([Call.mk 0 true 1200, Call.mk 0 false 0].filter Call.usesProbe).length ≤ 1 := by
+  refine ⟨?_, by decide⟩
+  intro c hc
+  simp at hc
+  rcases hc with rfl | rfl <;> simp [Call.ok] <;> omega
+
 end AQ.Props.C08
 
 #print axioms AQ.Props.C08.flight_budget
+#print axioms AQ.Props.C08.probe_excess_bound
 #print axioms AQ.Props.C08.flight_budget_formula
 #print axioms AQ.Props.C08.flight_budget_conn
 #print axioms AQ.Props.C08.flight_budget_ping_irrelevant
